@@ -174,6 +174,19 @@ fn emit_ops(emit: &mut dyn FnMut(Op), calls: &[Vec<u8>]) {
     emit(Op::new("summary.ops", &refs));
 }
 
+/// the same history with observations (print + getters, call kind 4) interleaved: printing must
+/// depend on the current values only, not on whether the entry was looked at before
+fn with_observations(rng: &mut Rng, calls: &[Vec<u8>]) -> Vec<Vec<u8>> {
+    let mut out = vec![];
+    for c in calls {
+        if rng.chance(1, 3) {
+            out.push(vec![4u8, 0u8]);
+        }
+        out.push(c.clone());
+    }
+    out
+}
+
 fn gen_c07(tier: &str, rng: &mut Rng, emit: &mut dyn FnMut(Op)) {
     let thorough = tier == "thorough";
     // every variable alone, set and (for arrays) pushed: both name tables, all 23 rows
@@ -196,6 +209,8 @@ fn gen_c07(tier: &str, rng: &mut Rng, emit: &mut dyn FnMut(Op)) {
         for _ in 0..3 {
             emit_ops(emit, &history(rng, &asg));
         }
+        let h = history(rng, &asg);
+        emit_ops(emit, &with_observations(rng, &h));
         // canonical text -> parse -> print
         emit(Op::s("summary.parse", &[&print_asg(&asg)]));
     }
